@@ -1,4 +1,5 @@
 SPEC = dict(
+    aux_kinds=['copath ', 'Call '],   # streams that call unexported helpers directly; skipped (UNAVAILABLE) when those are renamed
     harness="verif_c18",
     model="C18",
     uses_hashes=True,
